@@ -330,6 +330,10 @@ class SmartCloudSync(CloudSync):
         if ent[LOCAL].hash != ent[LOCAL].sync_hash or ent[LOCAL].parent.paths_differ(LOCAL):
             ent[LOCAL].changed = ent[LOCAL].changed or time.time()
             self._sync_one_entry(ent)
+            if ent[LOCAL].hash != ent[LOCAL].sync_hash:
+                # the upload was deferred (for instance the parent folder has to be synced first): removing the local
+                # copy now would lose the only copy of the edit, so refuse to unsync until it has been uploaded
+                raise ex.CloudTemporaryError("cannot unsync %s yet: local changes are not uploaded" % ent[LOCAL].path)
 
         return ent
 
